@@ -207,6 +207,7 @@ Spec == Init /\ [][Next]_vars
 Text == Render(fc, StyleOf(style), block)
 
 FamilyWellFormed == phase = "ready" => WellFormed(inst)
+FamilyShaped     == phase = "ready" => Shaped(inst)      \* C10 only: numbers as written, in any order
 ReadRender   == phase = "ready" /\ CheckText => ParseFile(Text, opts.na, opts.twopl) = inst
 OptionsRefine == Built => MechRefinesDefs(opts.flags, opts.twopl, opts.stab)
 IPRefines    == phase = "ready" /\ CheckIP /\ ~opts.bf => IPEqualsDefs(inst, opts.pc, opts.stab)
